@@ -209,6 +209,9 @@ pub fn run_c32(rep: &mut Report, progs: &[WProg]) {
         let (pi, base, b) = &work[i];
         let mut st = Stats::new();
         check_group(&progs[*pi], base, b, &mut st);
+        for v in &st.violations {
+            println!("  violation-key: {} (denoted input {:?})", v.key, base);
+        }
         if base.len() == n {
             let ev = st.evaluations;
             st.sample(|| json!({"program": progs[*pi].prog.name, "site": progs[*pi].site, "denoted_input": format!("{base:?}"), "physical_executions": ev}));
